@@ -1086,7 +1086,7 @@ END = "(* end of LmqrGen *)"
 
 def write(repo=None, outfile=None, write_ref=False):
     repo = repo or os.environ.get("VERIF_REPO", "/repo")
-    outfile = outfile or os.path.join(VERIF, "coq", "gen", "LmqrGen.v")
+    outfile = outfile or os.path.join(os.environ.get("VERIF_GEN_OUT") or os.path.join(VERIF, "coq", "gen"), "LmqrGen.v")
     gl.END = END
     return gl.write_generic(repo, outfile, write_ref, units, HEADER, END, REF, "LmqrGen.ref.v",
                             "LmqrGen.v — by translate/gen_lmqr.py", " , ".join(os.path.join(repo, x) for x in (RING, QRH, AAH, AND)), BINDERS, CTX)
